@@ -27,9 +27,9 @@ type CleanCase struct {
 	// ProjDir names the directory holding the spokfile ("" = proj)
 	ProjDir string `json:"proj_dir,omitempty"`
 	// Invoke: how spok is pointed at the project (sandbox.Box.Invoke)
-	Invoke    string     `json:"invoke,omitempty"`
+	Invoke string `json:"invoke,omitempty"`
 	// Outputs: "files" = standard output and error are regular files (sandbox.Box.FileOutputs)
-	Outputs string `json:"outputs,omitempty"`
+	Outputs   string     `json:"outputs,omitempty"`
 	Tree      []string   `json:"tree"` // relative to the project; trailing '/' = directory
 	Literal   []string   `json:"literal"`
 	Named     []NamedOut `json:"named"`
